@@ -13,6 +13,6 @@ git -C $WT apply $M/patch.diff || { echo "patch does not apply"; exit 4; }
 cmake --build $WT/_build -j12 >/dev/null 2>&1 || { echo "BUILD FAILED with change"; }
 echo "== baseline WITH change"; python3 /verif/tools/baseline.py --repo $WT 2>&1 | tail -3 | tee $M/confirm_baseline.log
 echo "== demo WITH change"; (cd $M/demo && bash run.sh $WT) > $M/confirm_demo_with.log 2>&1; echo "rc=$?" | tee -a $M/confirm_demo_with.log
-echo "== our check WITH change"; (cd /verif && VERIF_REPO=$WT bin/check $ID --tier quick) > $M/confirm_check.log 2>&1; echo "rc=$?" | tee -a $M/confirm_check.log
+echo "== our check WITH change"; (cd /verif && VERIF_EVIDENCE_DIR=$M/evidence VERIF_REPLAY_DIR=$M/replays VERIF_REPO=$WT bin/check $ID --tier quick) > $M/confirm_check.log 2>&1; echo "rc=$?" | tee -a $M/confirm_check.log
 grep -c "^VIOLATION" $M/confirm_check.log; grep "signature" $M/confirm_check.log | head -5
 git -C $WT checkout -q -- .
